@@ -19,6 +19,7 @@ This file restates the theorems the property rests on (full statements; proofs a
 Generated once by harness/mkprops.py from harness/props_table.py + PGProperties/extra/C18.lean.in; committed as source.
 -/
 import PGProofs.SerializeThm
+import PGProofs.SerializeFields
 
 set_option linter.all false
 set_option pp.fieldNotation.generalized false
@@ -27,16 +28,37 @@ namespace PG.C18
 open PG
 
 /-- save/load preserves configuration and every statistic -/
-theorem roundtrip : ∀ {Cfg Q R J : Type} [inst : BEq Q] (encode : Serialize.Obj Cfg Q R → J) (decode : J → Option (Serialize.Obj Cfg Q R)), (∀ (x : Serialize.Obj Cfg Q R), decode (encode x) = some x) → ∀ (f : Cfg → Q → R) (o : Serialize.Obj Cfg Q R), Serialize.Inv f o → ∃ o', Serialize.fromJson decode (Serialize.toJson encode o).fst = some o' ∧ o'.config = o.config ∧ Serialize.Inv f o' ∧ ∀ (q : Q), Serialize.ask f o' q = Serialize.ask f o q := @PG.Serialize.C18_roundtrip
+theorem roundtrip : ∀ {Cfg Q R J : Type} [inst : BEq Q] (encode : Serialize.Obj Cfg Q R → J) (decode : J → Option (Serialize.Obj Cfg Q R)), (∀ (x : Serialize.Obj Cfg Q R), decode (encode x) = some x) → ∀ (f : Cfg → Q → R) (o : Serialize.Obj Cfg Q R), Serialize.Inv f o → ∃ o', Serialize.fromJson decode (Serialize.toJson encode o).1 = some o' ∧ o'.config = o.config ∧ Serialize.Inv f o' ∧ ∀ (q : Q), Serialize.ask f o' q = Serialize.ask f o q := @PG.Serialize.C18_roundtrip
 
 /-- to_json returns the original unchanged -/
-theorem original_untouched : ∀ {Cfg Q R J : Type} [BEq Q] (encode : Serialize.Obj Cfg Q R → J) (o : Serialize.Obj Cfg Q R), (Serialize.toJson encode o).snd = o := @PG.Serialize.C18_original_untouched
+theorem original_untouched : ∀ {Cfg Q R J : Type} [BEq Q] (encode : Serialize.Obj Cfg Q R → J) (o : Serialize.Obj Cfg Q R), (Serialize.toJson encode o).2 = o := @PG.Serialize.C18_original_untouched
 
 /-- a second cycle is the identity -/
-theorem idempotent : ∀ {Cfg Q R J : Type} [BEq Q] (encode : Serialize.Obj Cfg Q R → J) (decode : J → Option (Serialize.Obj Cfg Q R)), (∀ (x : Serialize.Obj Cfg Q R), decode (encode x) = some x) → ∀ (o o₁ : Serialize.Obj Cfg Q R), Serialize.fromJson decode (Serialize.toJson encode o).fst = some o₁ → Serialize.fromJson decode (Serialize.toJson encode o₁).fst = some o₁ := @PG.Serialize.C18_idempotent
+theorem idempotent : ∀ {Cfg Q R J : Type} [BEq Q] (encode : Serialize.Obj Cfg Q R → J) (decode : J → Option (Serialize.Obj Cfg Q R)), (∀ (x : Serialize.Obj Cfg Q R), decode (encode x) = some x) → ∀ (o o₁ : Serialize.Obj Cfg Q R), Serialize.fromJson decode (Serialize.toJson encode o).1 = some o₁ → Serialize.fromJson decode (Serialize.toJson encode o₁).1 = some o₁ := @PG.Serialize.C18_idempotent
 
 /-- statistics computed after loading keep agreeing -/
 theorem later_queries : ∀ {Cfg Q R : Type} [inst : BEq Q] [LawfulBEq Q] (f : Cfg → Q → R) (o : Serialize.Obj Cfg Q R), Serialize.Inv f o → ∀ (q : Q), Serialize.Inv f (Serialize.compute f o q) := @PG.Serialize.compute_inv
+
+/-- FIELD LEVEL: after Coalescent.to_json / from_json every attribute of __dict__ (start_time, end_time, regularize, model, demography, results, ...) is the one that was saved, in the same order; only the two state-space entries may differ, and only by their dropped caches -/
+theorem fields_roundtrip_coalescent : ∀ {J : Type} (encode : Serialize.PyDict → J) (decode : J → Option Serialize.PyDict), (∀ (d : Serialize.PyDict), decode (encode d) = some d) → ∀ (d : Serialize.PyDict), Serialize.WF d → ∃ d', Serialize.fromJsonCoalescent Serialize.SetVariant.current decode (Serialize.toJsonCoalescent Serialize.SetVariant.current encode d).1 = some d' ∧ List.map Prod.fst d' = List.map Prod.fst d ∧ (∀ k ∉ Serialize.spaceKeys, Dict.get? d' k = Dict.get? d k) ∧ ∀ k ∈ Serialize.spaceKeys, Dict.get? d' k = Option.map Serialize.Val.dropCache (Dict.get? d k) := @PG.Serialize.roundtrip_dict_coalescent
+
+/-- restated for the named configuration fields -/
+theorem fields_named : ∀ {J : Type} (encode : Serialize.PyDict → J) (decode : J → Option Serialize.PyDict), (∀ (d : Serialize.PyDict), decode (encode d) = some d) → ∀ (d : Serialize.PyDict), Serialize.WF d → ∃ d', Serialize.fromJsonCoalescent Serialize.SetVariant.current decode (Serialize.toJsonCoalescent Serialize.SetVariant.current encode d).1 = some d' ∧ ∀ k ∈ ["start_time", "end_time", "regularize", "parallelize", "pbar", "model", "demography", "lineage_config", "locus_config", "tree_height", "total_branch_length", "sfs", "fsfs"], Dict.get? d' k = Dict.get? d k := @PG.Serialize.roundtrip_coalescent_fields
+
+/-- Inference: every key comes back with its value (callables through dill), no key is added -/
+theorem fields_roundtrip_inference : ∀ {J : Type} (encode : Serialize.PyDict → J) (decode : J → Option Serialize.PyDict), (∀ (d : Serialize.PyDict), decode (encode d) = some d) → ∀ (d : Serialize.PyDict), Serialize.WF d → ∀ (vc vl vr : Serialize.Val), Dict.get? d "coal" = some vc → Dict.get? d "loss" = some vl → Dict.get? d "resample" = some vr → Dict.get? d "coal_pickled" = none → Dict.get? d "loss_pickled" = none → Dict.get? d "resample_pickled" = none → ∃ j d', (Serialize.toJsonInference Serialize.GetVariant.current encode d).1 = some j ∧ Serialize.fromJsonInference decode j = some d' ∧ d' = Serialize.loadedDict d vc vl vr ∧ Serialize.WF d' ∧ ∀ (k : String), Dict.get? d' k = Dict.get? d k := @PG.Serialize.roundtrip_dict_inference
+
+/-- the start point after loading equals the one before, for every rng draw function -/
+theorem x0_stable : ∀ {J : Type} (encode : Serialize.PyDict → J) (decode : J → Option Serialize.PyDict), (∀ (d : Serialize.PyDict), decode (encode d) = some d) → ∀ (d : Serialize.PyDict), Serialize.WF d → ∀ (vc vl vr : Serialize.Val), Dict.get? d "coal" = some vc → Dict.get? d "loss" = some vl → Dict.get? d "resample" = some vr → Dict.get? d "coal_pickled" = none → Dict.get? d "loss_pickled" = none → Dict.get? d "resample_pickled" = none → ∀ (draw : Serialize.Val → Serialize.Val × Serialize.Val), ∃ j d', (Serialize.toJsonInference Serialize.GetVariant.current encode d).1 = some j ∧ Serialize.fromJsonInference decode j = some d' ∧ Serialize.x0Of d' draw = Serialize.x0Of d draw := @PG.Serialize.roundtrip_x0_stable
+
+/-- saving leaves the original dict untouched -/
+theorem fields_original_untouched : ∀ {J : Type} (v : Serialize.SetVariant) (encode : Serialize.PyDict → J) (d : Serialize.PyDict), (Serialize.toJsonCoalescent v encode d).2 = d := @PG.Serialize.original_untouched_coalescent
+
+/-- kernel-checked: `state | defaults` in __setstate__ resets start_time / regularize -/
+theorem setstate_defaults_defect : type_of% @PG.Serialize.defaultsOverride_loses_start_time := @PG.Serialize.defaultsOverride_loses_start_time   -- (printed statement does not re-elaborate; see the source lemma)
+
+/-- kernel-checked: dropping the cached x0 in __getstate__ makes the loaded object draw another start point -/
+theorem getstate_x0_defect : type_of% @PG.Serialize.dropsCachedX0_redraws := @PG.Serialize.dropsCachedX0_redraws   -- (printed statement does not re-elaborate; see the source lemma)
 
 end PG.C18
 
@@ -44,3 +66,10 @@ end PG.C18
 #print axioms PG.C18.original_untouched
 #print axioms PG.C18.idempotent
 #print axioms PG.C18.later_queries
+#print axioms PG.C18.fields_roundtrip_coalescent
+#print axioms PG.C18.fields_named
+#print axioms PG.C18.fields_roundtrip_inference
+#print axioms PG.C18.x0_stable
+#print axioms PG.C18.fields_original_untouched
+#print axioms PG.C18.setstate_defaults_defect
+#print axioms PG.C18.getstate_x0_defect
